@@ -4,9 +4,11 @@
   Spec side : `Laws` (Spec/Laws.lean: KCL + every component's defining relation), `Realises`
               (Spec/StateSpace.lean: the state and output equations of a realisation reproduce b(s)/a(s)).
   Model side: `nodalEq`, `meshEq` (Model/Formulations.lean), `ccf`, `ocf`, `dcf` (Model/Realisations.lean).
-  `patched = true` is the code with the minimal patches for findings F13/C15-c/C15-b/C15-d applied,
-  `patched = false` the code as it is; theorems about the latter are `…_partial` and name the
-  excluded region, which the oracle of harness/c15.py covers on the real code.
+  Findings F13, C15-b, C15-d, C15-g, C15-h, C15-j, C15-f are fixed in /repo: the models mirror the fixed code
+  and the theorems are at full strength.  Finding C15-c (mesh analysis identifies parallel components by
+  node pair) is still open: `pe = false` is the code as it is (`mesh_eqs_hold_partial`, excluding graphs
+  with parallel components, which the oracle of harness/c15.py covers on the real code), `pe = true` the
+  code with the proposed patch (`mesh_eqs_hold`).
   Only property theorems live here; helper lemmas are in Proofs/Formulations.lean, Proofs/Realisations.lean.
 -/
 import Lcapy.Proofs.Formulations
@@ -23,14 +25,14 @@ variable {K : Type} [Field K]
     finite admittance 1/(sL) (so not in DC, where the code prints `zoo`). -/
 def NodalDefined (kind : Kind) (s : K) (cs : List (Cpt K)) : Prop := ∀ c ∈ cs, OkCpt kind s c
 
-/-- **nodal_eqs_hold** (patched code): for every netlist of any size, in every analysis kind, at
+/-- **nodal_eqs_hold**: for every netlist of any size, in every analysis kind, at
     every point s, an assignment that obeys Kirchhoff's laws and the component relations satisfies
     the equation the nodal formulation files under every node k: the voltage-source constraint
     `V[n1] = V[n2] + Voc` when a voltage source is attached, else KCL written with
     `current_equation` of each incident component. -/
 theorem nodal_eqs_hold (kind : Kind) (s : K) (cs : List (Cpt K)) (x : Ix → K)
     (hdef : NodalDefined kind s cs) (hlaws : Laws kind s cs x) (k : Nat) (hk : k ≠ 0) :
-    (nodalEq true kind s cs k).eval x = 0 := by
+    (nodalEq kind s cs k).eval x = 0 := by
   unfold nodalEq
   cases hh : (cs.filter (fun c => isV c && incident k c)).head? with
   | some c =>
@@ -59,39 +61,7 @@ theorem nodal_eqs_hold (kind : Kind) (s : K) (cs : List (Cpt K)) (x : Ix → K)
       refine ⟨fun hi => ?_, fun hi => outflow_not_incident kind s x k c (hdef c hc) hi⟩
       exact kclTerm_patched kind s x k c (hdef c hc) (hnoV c hc hi) hi (hlaws.2 c hc)
 
-/- Full statement for the code as it is -- FALSE (findings F13, C15-b):
-   theorem nodal_eqs_hold_asis … : (nodalEq false kind s cs k).eval x = 0
-   fails for `I1 1 0 dc 2; R1 1 2 3; R2 2 0 5` at node 1 (see `f13_defect` below). -/
-
-/-- **nodal_eqs_hold_partial** (code as it is): the same conclusion wherever no incident component
-    is seen from its unsafe side.  Excluded region, covered by the oracle on the real code:
-    KCL at the FIRST node of an independent current source (F13) and at the SECOND node of a
-    capacitor / inductor that carries an initial condition (C15-b). -/
-theorem nodal_eqs_hold_partial (kind : Kind) (s : K) (cs : List (Cpt K)) (x : Ix → K)
-    (hdef : NodalDefined kind s cs) (hlaws : Laws kind s cs x) (k : Nat) (hk : k ≠ 0)
-    (hsafe : ∀ c ∈ cs, incident k c = true → SafeAt kind s k c) :
-    (nodalEq false kind s cs k).eval x = 0 := by
-  have hfull := nodal_eqs_hold kind s cs x hdef hlaws k hk
-  unfold nodalEq at hfull ⊢
-  cases hh : (cs.filter (fun c => isV c && incident k c)).head? with
-  | some c =>
-    rw [hh] at hfull
-    have hc := List.mem_filter.mp (List.mem_of_mem_head? hh)
-    cases c <;> simp [isV] at hc
-    exact hfull
-  | none =>
-    rw [hh] at hfull
-    simp only at hfull ⊢
-    rw [eval_sumForms] at hfull ⊢
-    rw [← hfull]
-    congr 1
-    rw [List.map_map, List.map_map]
-    apply List.map_congr_left
-    intro c hc
-    have hc' := List.mem_filter.mp hc
-    exact kclTerm_asis kind s x k c (hdef c hc'.1) hc'.2 (hsafe c hc'.1 hc'.2)
-
-/-- non-vacuity, and F13 in the model: `I1 1 0 dc 2; R1 1 2 3; R2 2 0 5`, V1 = 16, V2 = 10 -/
+/-- non-vacuity, on the F13 circuit: `I1 1 0 dc 2; R1 1 2 3; R2 2 0 5`, V1 = 16, V2 = 10 -/
 def f13 : List (Cpt ℚ) := [.I 1 0 2, .R 1 2 3, .R 2 0 5]
 def f13x : Ix → ℚ := fun i => match i with | node 1 => 16 | node 2 => 10 | _ => 0
 
@@ -109,9 +79,9 @@ theorem f13_laws : Laws .dc 0 f13 f13x := by
     simp [f13] at hc
     rcases hc with rfl | rfl | rfl <;> simp [laws] at hp
 
-/-- the equation the code as it is prints for node 1 (`V1/3 − V2/3 + 2 = 0`) evaluates to 4 at
-    the solution, the patched one to 0 -/
-theorem f13_defect : (nodalEq false .dc 0 f13 1).eval f13x = 4 ∧ (nodalEq true .dc 0 f13 1).eval f13x = 0 := by
+/-- regression for F13 (fixed): the equation for node 1 is `V1/3 − V2/3 − 2 = 0`; it evaluates to 0 at
+    the solution (the pre-fix `… + 2` evaluated to 4) -/
+theorem f13_fixed : (nodalEq .dc 0 f13 1).eval f13x = 0 ∧ (nodalEq .dc 0 f13 1).const = -2 := by
   constructor <;>
     norm_num [nodalEq, f13, f13x, isV, incident, nodes2, kclTerm, curEq, isI, sumForms, LinForm.add, LinForm.zero,
               LinForm.eval, lsum, volt]
@@ -142,7 +112,7 @@ def MeshConsistent (patched : Bool) (kind : Kind) (s : K) (cs : List (Cpt K)) (l
   ∀ ab ∈ loopPairs loop, ∀ idx c, component (buildGraph cs) ab.1 ab.2 = some (idx, c) → isV c = false →
     meshCurrent patched (buildGraph cs) loops idx c im = -(through kind s x c)
 
-/-- **mesh_eqs_hold** (patched code): for every netlist, every list of loops handed in by the cycle
+/-- **mesh_eqs_hold** (code with the proposed patch for C15-c, `pe = true`): for every netlist, every list of loops handed in by the cycle
     search and every loop among them that passes the decidable `isSimpleCycle` check against the
     circuit graph, the KVL equation `_process_loop` writes is satisfied by any solution of the
     circuit laws, with mesh currents that carry that solution. -/
@@ -150,12 +120,12 @@ theorem mesh_eqs_hold (kind : Kind) (s : K) (cs : List (Cpt K)) (x : Ix → K) (
     (im : Nat → K) (hdef : MeshDefined kind s cs) (hlaws : Laws kind s cs x) (loop : List GNode)
     (hcyc : isSimpleCycle (buildGraph cs) loop = true)
     (hcons : MeshConsistent true kind s cs loops x im loop)
-    (f : MeshForm K) (hf : meshEq true true kind s (buildGraph cs) loops loop = some f) : f.eval im = 0 := by
-  rw [meshEq_eval true true kind s (buildGraph cs) loops x im (loopPairs loop) ?_ f hf]
+    (f : MeshForm K) (hf : meshEq true kind s (buildGraph cs) loops loop = some f) : f.eval im = 0 := by
+  rw [meshEq_eval true kind s (buildGraph cs) loops x im (loopPairs loop) ?_ f hf]
   · exact kvl_telescopes x loop
   · intro ab hab t ht
-    exact meshTerm_eval true true kind s cs (buildGraph cs) (buildGraph_ok cs) loops x im hlaws hdef
-      (fun h => absurd h (by simp)) (fun h => absurd h (by simp)) ab (adjacent_of_cycle _ loop hcyc ab hab) (hcons ab hab) t ht
+    exact meshTerm_eval true kind s cs (buildGraph cs) (buildGraph_ok cs) loops x im hlaws hdef
+      (fun h => absurd h (by simp)) ab (adjacent_of_cycle _ loop hcyc ab hab) (hcons ab hab) t ht
 
 /-- non-vacuity: V1 1 0 6; R1 1 2 3; R2 2 0 5 with its solution, the loop 0-1-2 and the mesh current 3/4 -/
 example : isSimpleCycle (buildGraph exCkt) exLoop = true := exLoop_cycle
@@ -169,26 +139,24 @@ example : MeshConsistent true .dc 0 exCkt [exLoop] exSol (fun _ => 3/4) exLoop :
   · simp only [meshCurrent, nodes2, if_true, exAcc2]
     norm_num [accCoeffs, lsum, through, exSol, vd, volt]
 
-/- Full statement for the code as it is -- FALSE (findings C15-c, C15-d):
-   theorem mesh_eqs_hold_asis … (hcons : MeshConsistent false …) (hf : meshEq false false … = some f) : f.eval im = 0
-   fails for `V1 1 0 step 6; R1 1 2 3; R2 2 0 5; R3 2 0 7` (parallel R2, R3) and for any loop through an
-   inductor or capacitor with an initial condition. -/
+/- Full statement for the code as it is -- FALSE (finding C15-c, open):
+   theorem mesh_eqs_hold_asis … (hcons : MeshConsistent false …) (hf : meshEq false … = some f) : f.eval im = 0
+   fails for `V1 1 0 step 6; R1 1 2 3; R2 2 0 5; R3 2 0 7` (parallel R2, R3). -/
 
-/-- **mesh_eqs_hold_partial** (code as it is): the same conclusion when the graph has no dummy
-    node (no two components join the same pair of nodes, C15-c) and no component carries an
-    initial-condition term (C15-d).  Both excluded regions are covered by the oracle on the real code. -/
+/-- **mesh_eqs_hold_partial** (code as it is, `pe = false`): the same conclusion when the graph has
+    no dummy node, i.e. no two components join the same pair of nodes (C15-c).  The excluded region is
+    covered by the oracle on the real code.  Initial conditions are included (C15-d is fixed). -/
 theorem mesh_eqs_hold_partial (kind : Kind) (s : K) (cs : List (Cpt K)) (x : Ix → K) (loops : List (List GNode))
     (im : Nat → K) (hdef : MeshDefined kind s cs) (hlaws : Laws kind s cs x) (loop : List GNode)
     (hcyc : isSimpleCycle (buildGraph cs) loop = true)
     (hnopar : ∀ e ∈ buildGraph cs, ∃ n, e.b = GNode.real n)
-    (hnoic : ∀ c ∈ cs, NoIC kind s c)
     (hcons : MeshConsistent false kind s cs loops x im loop)
-    (f : MeshForm K) (hf : meshEq false false kind s (buildGraph cs) loops loop = some f) : f.eval im = 0 := by
-  rw [meshEq_eval false false kind s (buildGraph cs) loops x im (loopPairs loop) ?_ f hf]
+    (f : MeshForm K) (hf : meshEq false kind s (buildGraph cs) loops loop = some f) : f.eval im = 0 := by
+  rw [meshEq_eval false kind s (buildGraph cs) loops x im (loopPairs loop) ?_ f hf]
   · exact kvl_telescopes x loop
   · intro ab hab t ht
-    exact meshTerm_eval false false kind s cs (buildGraph cs) (buildGraph_ok cs) loops x im hlaws hdef
-      (fun _ => hnopar) (fun _ => hnoic) ab (adjacent_of_cycle _ loop hcyc ab hab) (hcons ab hab) t ht
+    exact meshTerm_eval false kind s cs (buildGraph cs) (buildGraph_ok cs) loops x im hlaws hdef
+      (fun _ => hnopar) ab (adjacent_of_cycle _ loop hcyc ab hab) (hcons ab hab) t ht
 
 /-! ## canonical state-space realisations of a transfer function (continuous and discrete time) -/
 
@@ -337,7 +305,7 @@ theorem ocf_realises (b a : List K) (h : ProperTF b a) : ∃ sys, ocf b a = some
 /-- **dcf_transfer**: the diagonal form A = diag(p), B = ones, C = r, D = d has the transfer
     function d + Σ rᵢ/(s − pᵢ) at every s that is not a pole -- so it realises b/a exactly when the
     poles and residues handed in are a partial-fraction expansion of b/a (checked by the oracle;
-    it is not for bi-proper b/a in the code as it is, finding C15-e). -/
+    the oracle checks that on every case; findings C15-e/C15-j, fixed). -/
 theorem dcf_transfer (b a poles residues : List K) (s : K)
     (hs : ∀ i, i < a.length - 1 → s - coef poles i ≠ 0) (X : Nat → K)
     (hX : StateEq (dcfOf b a poles residues) s X) :
